@@ -451,6 +451,21 @@ func kPointOK(out *runOut, c int) bool {
 		}
 	}
 	ops := out.stor.Ops()
+	// an edit is durable from the manifest Sync that follows its record, but it is logged when the commit hook runs;
+	// other goroutines' storage operations may fall between the two: a crash point in that gap already holds an edit
+	// that the event list up to the point does not — not a point the record-level comparison can use
+	for _, e := range out.edits {
+		if e.idx > c {
+			for i := e.idx - 1; i >= 0 && i >= c-400; i-- {
+				if i < len(ops) && ops[i].Fd.Type == storage.TypeManifest && ops[i].Kind == vstor.OpSync {
+					if i < c {
+						return false
+					}
+					break
+				}
+			}
+		}
+	}
 	pending := false
 	for i := 0; i < c && i < len(ops); i++ {
 		if ops[i].Fd.Type == 1 && ops[i].Kind == vstor.OpWrite {
